@@ -129,6 +129,10 @@ type c10Case struct {
 	// the server's answer (in particular a dispatcher failure, sent as soon as the invoke is there) can arrive
 	// while the client is still writing it
 	ReqSize int
+	// Early (bidi shape with a failing handler): the handler fails at once while the client, which cannot know yet,
+	// keeps sending: one message flushed, a second one written (with ManualFlush it stays in the writer) - then it
+	// receives. The receive must report the handler's error whatever is still sitting unsent in the writer.
+	Early bool
 }
 
 func genC10(t *rapid.T) c10Case {
@@ -140,6 +144,13 @@ func genC10(t *rapid.T) c10Case {
 	c.Both = rapid.Bool().Draw(t, "both")
 	c.Choices = genChoices(t, 120)
 	c.ReqSize = rapid.SampledFrom([]int{0, 0, 30, 300}).Draw(t, "reqsize")
+	if c.Shape == 3 && c.Err != nil && rapid.Bool().Draw(t, "early") {
+		c.Early = true
+		c.Cfg.ManualFlush = rapid.Bool().Draw(t, "manualflush")
+		c.Cfg.Points = []string{"stream.MsgSend.beforeFlush"}
+		c.Cfg.PointLimit = 4
+		return c
+	}
 	if rapid.IntRange(0, 2).Draw(t, "points") == 0 {
 		// the server is slow to report the failure: what the client sent meanwhile is already waiting in the stream
 		c.Cfg.Points = []string{"stream.SendError.beforeWriteLock"}
@@ -160,6 +171,9 @@ func (stubStream) CloseSend() error { return nil }
 func (stubStream) Close() error     { return nil }
 
 func runC10(c c10Case) (r pbt.Result) {
+	if c.Early {
+		c.K = 0 // the handler fails before it receives or sends anything
+	}
 	impl := &svcImpl{k: c.K, both: c.Both}
 	if c.Err != nil {
 		impl.err = c.Err.Build()
@@ -248,6 +262,17 @@ func runC10(c c10Case) (r pbt.Result) {
 			_ = st.CloseSend()
 			recvAll()
 		case 3:
+			if c.Early {
+				// sends may report io.EOF once the handler's error has arrived: that only says "ended", the
+				// reason is what the receive reports
+				_ = st.MsgSend(&msgT{B: []byte("q0")}, msgEnc{})
+				if c.Cfg.ManualFlush {
+					_ = st.(interface{ RawFlush() error }).RawFlush()
+				}
+				_ = st.MsgSend(&msgT{B: []byte("q1")}, msgEnc{})
+				recvAll()
+				break
+			}
 			for i := 0; i < c.K; i++ {
 				if err := st.MsgSend(&msgT{B: []byte(fmt.Sprintf("q%d", i))}, msgEnc{}); err != nil {
 					callErr = err
@@ -343,6 +368,12 @@ func runC10(c c10Case) (r pbt.Result) {
 	}
 	if c.Shape >= 4 {
 		r.Label("dispatcher_failure")
+	}
+	if c.Early {
+		r.Label("client_still_sending_when_the_handler_failed")
+		if c.Cfg.ManualFlush {
+			r.Label("manual_flush")
+		}
 	}
 	r.NonTrivial = wantErr != nil && (c.K >= 1 || c.Shape >= 4 || (c.Err != nil && (len(c.Err.Msg) >= 128 || len(c.Err.Layers) >= 2 || c.Err.Code >= 1<<32 || !isASCII(c.Err.Msg))))
 	r.Key = fmt.Sprintf("%d/%d/%+v/%s", c.Shape, c.K, c.Err, strings.Join(w.Trace, ","))
